@@ -50,7 +50,7 @@ class Skip(Exception):
     pass
 
 
-def evaluate(prog, base, lib, decisions=None):
+def evaluate(prog, base, lib, decisions=None, nudge=0.0):
     """Evaluate prog["out"] with node 0 bound to `base`.  lib: "pd" | "dd".
     `decisions` (dict) carries run-time decisions of the dask side (head1/tail applicability)
     over to the pandas side so that both run the same program."""
@@ -126,7 +126,14 @@ def evaluate(prog, base, lib, decisions=None):
         elif op == "col":
             r = ev(nd[1])[nd[2]]
         elif op == "sbin" or op == "cbin":
-            r = _BIN[nd[1]](opnd(nd[2]), opnd(nd[3]))
+            a, b = opnd(nd[2]), opnd(nd[3])
+            if nudge and op == "sbin" and nd[1] in ("gt", "lt", "ge", "le", "eq", "ne"):
+                # float-tie probe (pandas side only): move a reduction-valued threshold by a relative epsilon
+                if "n" in nd[3] and nodes[nd[3]["n"]][0] in ("red", "cbin"):
+                    b = b + nudge * max(1.0, abs(float(b)))
+                if "n" in nd[2] and nodes[nd[2]["n"]][0] in ("red", "cbin"):
+                    a = a + nudge * max(1.0, abs(float(a)))
+            r = _BIN[nd[1]](a, b)
         elif op == "sun":
             x = ev(nd[2])
             f = nd[1]
